@@ -97,6 +97,17 @@ fn sample_emit(mods: &[(&str, String)], ptr: usize, st: &ResolvedSemanticState) 
     });
 }
 
+/// an input that is accepted although the reference rejects it is always run through the backend check (the emitted struct,
+/// laid out by the rules of the Rust reference, must still have the resolved offsets, size and alignment - C01 / C02)
+fn force_emit(mods: &[(&str, String)], ptr: usize, st: &ResolvedSemanticState) {
+    if EMIT_SAMPLE.with(|c| { let c = c.borrow(); c.0 == 0 || c.2.len() >= 200 }) { return; }
+    let e = emit_checked(ptr, st, mods, &scratch_dir());
+    EMIT_SAMPLE.with(|c| {
+        let mut c = c.borrow_mut();
+        for x in e.viols { c.2.push((join_sources(mods), ptr, x)); }
+    });
+}
+
 pub fn build_one(src: &str, ptr: usize) -> Outcome {
     build_modules(&[("m", src.to_string())], ptr)
 }
@@ -236,6 +247,7 @@ fn layout_check(c: &LayoutCase, ptr: usize, props: &str, out: &mut Vec<Fail>) {
         (Outcome::Err(m), Some(e)) => { if props.contains("C03") { fail(format!("accepted (size {}, align {})", e.size, e.align), format!("ERR({m})"), out) } }
         (Outcome::Ok(st), None) => {
             if props.contains("C03") { fail("rejected".into(), "accepted".into(), out) }
+            if props.contains("C01") || props.contains("C02") { force_emit(&[("m", src.clone())], ptr, st); }
             // C01 speaks about every *accepted* description, whether or not it should have been accepted:
             // a field with an explicit address sits at that offset, a field without one starts where its
             // predecessor ends
@@ -314,6 +326,26 @@ fn layout_family(seed: u64, quick: bool, props: &str, out: &mut Vec<Fail>) -> us
                                 if out.len() > 40 { return n; }
                             }
                         }
+                    }
+                }
+            }
+        }
+    }
+    // always run (both tiers): shapes that were the triggers of seeded changes and that the thinned product may skip -
+    // a zero-sized, pointer-aligned field (empty struct) or an oddly aligned extern type after a small field, with the
+    // size made up by a declared size or a trailing field
+    let ix = |txt: &str| TYS.iter().position(|t| t.txt == txt).unwrap();
+    for ptr in [4usize, 8] {
+        for first in ["u8", "u16", "u32"] {
+            for second in ["Marker", "Odd", "void", "[u32; 0]"] {
+                for (third, size) in [(None, Some(8u128)), (None, Some(16)), (Some("unknown<5>"), None), (Some("[u16; 3]"), None), (Some("u8"), Some(8)), (None, None)] {
+                    for a2 in [None, Some(1u128), Some(2), Some(4)] {
+                        let mut fields = vec![(ix(first), None), (ix(second), a2)];
+                        if let Some(t) = third { fields.push((ix(t), None)); }
+                        let c = LayoutCase { fields, size, align: None, packed: false, vftable: false };
+                        layout_check(&c, ptr, props, out);
+                        n += 1;
+                        if out.len() > 40 { return n; }
                     }
                 }
             }
